@@ -69,3 +69,10 @@ Definition calculate_bus_load (b : bus) (def : Z) : bl_result :=
     let es := loads (b_typ b) def (bus_msgs b) in
     let tot := total_bps es in
     BLOk (tot / inject_Z (b_baud b) * inject_Z 100)%Q (sort_desc (with_pct tot es)).
+
+(* Several calls on the same bus: CalculateBusLoad takes the bus by pointer but only reads it, so
+   the model of a sequence of calls is the same function applied to the same bus value once per
+   default cycle time.  (That the Go code really mutates nothing observable is the correspondence
+   check's job: every call of a session is compared with this function independently and the
+   public state is snapshotted around every call.) *)
+Definition session (b : bus) (defs : list Z) : list bl_result := map (calculate_bus_load b) defs.
